@@ -1408,7 +1408,10 @@ def gen_C16(rng, tier):
         desc = field_desc(*rng.choice(SMALL_Q[1:9]))
         h = H(rng, desc, bspec=bspec(rng), snap=True)
         gs = small_ideal(h, rng, ngens=rng.choice([1, 2, 2, 3]))
-        c = h.elem(rand_elem(desc, rng, special=0))
+        cenc = rand_elem(desc, rng, special=0)
+        while cenc == "0":
+            cenc = rand_elem(desc, rng, special=0)
+        c = h.elem(cenc)
         h.ops.append("setscale %s %s" % (gs[0], c))             # a leading coefficient other than one
         i0 = h.newi(); h.ops.append("%s=ideal@0 %s" % (i0, " ".join(gs)))
         if rng.random() < 0.4:
